@@ -16,13 +16,23 @@ def mobius(col, k):
     return a
 
 
-def compose(col, idx_polys):
-    """Boolean function given by truth table col over k index bits (LSB first polys) -> poly"""
+_ANF_CACHE = {}
+
+
+def compose(col, idx_polys, key=None):
+    """Boolean function given by truth table col over k index bits (LSB first polys) -> poly.
+    key: hashable identity of (table, output bit) for caching the algebraic normal form"""
     k = len(idx_polys)
-    anf = mobius(col, k)
+    masks = _ANF_CACHE.get((key, k)) if key is not None else None
+    if masks is None:
+        anf = mobius(col() if callable(col) else col, k)
+        masks = [m for m, c in enumerate(anf) if c]
+        if key is not None:
+            _ANF_CACHE[(key, k)] = masks
     out = ZERO
     cache = {0: ONE}
-    for mask, c in enumerate(anf):
+    for mask in masks:
+        c = 1
         if not c:
             continue
         # product of idx polys in mask (memoised on mask with lowest bit removed)
@@ -40,6 +50,13 @@ def compose(col, idx_polys):
 
 
 class SymList(list):
+    def _key(self):
+        k = getattr(self, "_pyvc_key", None)
+        if k is None:  # content-derived identity of the table (the list is a constant table; never mutated)
+            k = hash(tuple((e.to01() if hasattr(e, "to01") else tuple(e.tolist()) if hasattr(e, "tolist") else e) for e in list.__iter__(self)))
+            self._pyvc_key = k
+        return k
+
     def __getitem__(self, i):
         if isinstance(i, (SBit, SLin)):
             i = SInt.lift(i)
@@ -59,10 +76,19 @@ class SymList(list):
         e0 = entries[0]
         if isinstance(e0, (SBits, _real_bitarray)):
             L = len(e0)
-            rows = [e.tolist() for e in entries]
-            bits = [mkbit(compose([int(r[b]) for r in rows], idx_polys)) for b in range(L)]
+            rows = None
+
+            def column(b):
+                def f():
+                    nonlocal rows
+                    if rows is None:
+                        rows = [e.tolist() for e in entries]
+                    return [int(r[b]) for r in rows]
+                return f
+
+            bits = [mkbit(compose(column(b), idx_polys, key=(self._key(), b))) for b in range(L)]
             return SBits.of(bits, e0.endian)
         if isinstance(e0, (int, _np.integer)) and all(int(e) >= 0 for e in entries):
             w = max(int(e).bit_length() for e in entries)
-            return SInt([mkbit(compose([(int(e) >> b) & 1 for e in entries], idx_polys)) for b in range(w)]).n()
+            return SInt([mkbit(compose([(int(e) >> b) & 1 for e in entries], idx_polys, key=(self._key(), b))) for b in range(w)]).n()
         raise OutOfReach("symbolic index into table of %s" % type(e0))
